@@ -214,7 +214,7 @@ class PSample(SObj):
             raise Unsupported('operand getindex(%r)' % (e,))
         e = zint(e)
         # callee precondition (Sample.index calls getindex for range(nelems) only)
-        ctx.oblige('pre:operand-element-in-range', z3.And(0 <= e, e < self.ne), kind='lemma')
+        ctx.oblige(ctx.name('pre:%s-element-in-range' % self.pname), z3.And(0 <= e, e < self.ne), kind='lemma')
         cnt, idx = self.cnt, self.idx
         return IdxVec('int', cnt(e), lambda k: idx(e, k), self.pname + '.getindex')
 
@@ -257,19 +257,22 @@ class Part(Contract):
         return S
 
     def hints(self, cx, S, r):
-        """valid arithmetic facts (each proved separately or an instance of a listed lemma) offered to the solver"""
+        """[(name, formula)]: arithmetic facts that are emitted as obligations of their own (clause `arith:<name>`) AND
+        offered as premises to the main clauses -- instantiation hints for nonlinear div/mod reasoning."""
         return []
 
     def ensures(self, cx, S, r):
         if not (isinstance(r, Vec) and r.kind == 'int'):
             raise Unsupported('getindex returned %r' % (r,))
-        h = self.hints(cx, S, r)
+        hs = self.hints(cx, S, r)
+        h = [f for _, f in hs]
         imp = (lambda g: z3.Implies(z3.And(*h), g)) if h else (lambda g: g)
+        pre = [('arith:' + nm, f) for nm, f in hs]
         if self.scenario == 'element':
             k, e = S.k, S.e
             inr = z3.And(0 <= k, k < r.n)
             v = r.sel(k)
-            out = [('length-is-point-count-of-element', imp(r.n == S.cnt(e)))]
+            out = pre + [('length-is-point-count-of-element', imp(r.n == S.cnt(e)))]
             exp = self.order(cx, S, e, k)
             if exp is not None:
                 out.append((self.order_name, imp(z3.Implies(inr, v == exp))))
@@ -277,7 +280,7 @@ class Part(Contract):
             out.append(('elem_of-loc_of-invert-index', imp(z3.Implies(inr, z3.And(S.EO(v) == e, S.LO(v) == k)))))
             return out
         l = S.LO(S.p)
-        return [('elem_of-in-range', imp(z3.And(0 <= S.e, S.e < S.ne))),
+        return pre + [('elem_of-in-range', imp(z3.And(0 <= S.e, S.e < S.ne))),
                 ('every-point-is-covered', imp(z3.And(0 <= l, l < r.n, r.sel(l) == S.p)))]
 
     replay_kind = None
@@ -512,6 +515,38 @@ class MulGet(Part):
         c2 = s2.cnt(S.e2(e))
         return s1.idx(S.e1(e), k / c2) * s2.np + s2.idx(S.e2(e), k % c2)
 
+    def hints(self, cx, S, r):
+        s1, s2 = S.s1, S.s2
+
+        def divmod_of(a, b, n):  # L-DIVMOD instance: divmod(a*n + b, n) = (a, b) for 0 <= b < n
+            return z3.Implies(z3.And(0 <= b, b < n), z3.And((a * n + b) / n == a, (a * n + b) % n == b))
+
+        def decode(q, m, n):  # 0 <= q < m*n with m >= 0: q = (q div n)*n + q mod n with q div n < m
+            return z3.Implies(z3.And(0 <= q, q < m * n, m >= 0, n >= 0), z3.And(n > 0, 0 <= q / n, q / n < m, 0 <= q % n, q % n < n, q == (q / n) * n + q % n))
+
+        def encode(a, b, m, n):  # 0 <= a < m, 0 <= b < n: 0 <= a*n + b < m*n
+            return z3.Implies(z3.And(0 <= a, a < m, 0 <= b, b < n), z3.And(0 <= a * n + b, a * n + b < m * n))
+        if self.scenario == 'element':
+            e, k = S.e, S.k
+            E1, E2 = S.e1(e), S.e2(e)
+            c1, c2 = s1.cnt(E1), s2.cnt(E2)
+            a, b = s1.idx(E1, k / c2), s2.idx(E2, k % c2)
+            return [('element-number-decodes', decode(e, s1.ne, s2.ne)),
+                    ('position-decodes', decode(k, c1, c2)),
+                    ('point-index-divmod', divmod_of(a, b, s2.np)),
+                    ('point-index-in-range', encode(a, b, s1.np, s2.np)),
+                    ('element-number-divmod', divmod_of(E1, E2, s2.ne)),
+                    ('position-divmod', divmod_of(k / c2, k % c2, c2))]
+        p = S.p
+        p1, p2 = p / s2.np, p % s2.np
+        E1, E2 = s1.EO(p1), s2.EO(p2)
+        c1, c2 = s1.cnt(E1), s2.cnt(E2)
+        return [('point-index-decodes', decode(p, s1.np, s2.np)),
+                ('element-number-divmod', divmod_of(E1, E2, s2.ne)),
+                ('element-number-in-range', encode(E1, E2, s1.ne, s2.ne)),
+                ('position-divmod', divmod_of(s1.LO(p1), s2.LO(p2), c2)),
+                ('position-in-range', encode(s1.LO(p1), s2.LO(p2), c1, c2))]
+
 
 # ---- _Zip -------------------------------------------------------------------------------------------------------------------
 
@@ -567,6 +602,11 @@ class EmptyGet(Contract):
 
 
 def contracts():
+    from contracts import samplector, sampleeval, sampleeval2
+    return _contracts() + samplector.contracts() + sampleeval.contracts() + sampleeval2.contracts()
+
+
+def _contracts():
     cs = []
     for cls in (DefaultIndexGet, TakeElementsGet, CustomIndexGet, AddGet, MulGet, ZipGet):
         cs += [cls('element'), cls('cover')]
